@@ -99,6 +99,26 @@ def schema_table(repo):
                         return alt
         return None
 
+    union_mode = [False]
+
+    def obj_union(o):
+        """names only: the union of the properties of all object alternatives"""
+        o = merge_all_of(o)
+        if not isinstance(o, dict):
+            return None
+        props = dict(o.get("properties", {}))
+        found = "properties" in o
+        for key in ("anyOf", "oneOf"):
+            for alt in o.get(key, []):
+                alt = merge_all_of(alt)
+                if isinstance(alt, dict) and "properties" in alt:
+                    found = True
+                    for k, v in alt["properties"].items():
+                        props.setdefault(k, v)
+        if not found:
+            return None
+        return {"properties": props, "additionalProperties": False}
+
     def opts_of(cfg, depth):
         req = set(cfg.get("required", []))
         cond = set()
@@ -119,9 +139,10 @@ def schema_table(repo):
                 rng = [o.get("minimum"), o.get("maximum")]
             sub, sub_elem = None, False
             if depth < 3:
-                n = obj_alt(o)
+                pick = obj_union if union_mode[0] else obj_alt
+                n = pick(o)
                 if n is None and o.get("type") == "array" and isinstance(o.get("items"), dict):
-                    n = obj_alt(o["items"])
+                    n = pick(o["items"])
                     sub_elem = n is not None
                 if n is not None:
                     sub = opts_of(n, depth + 1)
@@ -153,11 +174,27 @@ def schema_table(repo):
                 out.append({"kind": kind, "type": ty, "has_config": cfg is not None,
                             "cfg_req": "config" in d.get("required", []),
                             "opts": opts})
+    # the other sections of the configuration (rows are compared by name/requiredness/value class; whether unknown
+    # keys are accepted is NOT compared there: the Configuration struct is decoded without ErrorUnused)
+    union_mode[0] = True
+    for name, node in S.get("properties", {}).items():
+        n = obj_union(node)
+        opts = [o for o in opts_of(n, 0) if o["name"] != ANY] if n is not None else []
+
+        def strip_any(os_):
+            for o in os_:
+                if o.get("sub"):
+                    o["sub"] = strip_any([x for x in o["sub"] if x["name"] != ANY])
+            return os_
+
+        out.append({"kind": "section", "type": name, "has_config": n is not None, "cfg_req": False, "opts": strip_any(opts)})
+    union_mode[0] = False
     return sorted(out, key=lambda m: (m["kind"], m["type"]))
 
 
 def loader_table(path):
-    L = json.load(open(path))["mechs"]
+    J = json.load(open(path))
+    L = J["mechs"] + J.get("sections", [])
     out = []
     for m in L:
         def conv(os_):
@@ -170,7 +207,7 @@ def loader_table(path):
         opts = conv(m["opts"])
         out.append({"kind": m["kind"], "type": m["type"], "has_config": m["has_config"],
                     # a conditional requirement (required_without=...) also bites when there is no config at all
-                    "cfg_req": any(o["required"] in ("yes", "cond") for o in opts),
+                    "cfg_req": m["kind"] != "section" and any(o["required"] in ("yes", "cond") for o in opts),
                     "opts": sorted(opts, key=lambda o: o["name"])})
     return sorted(out, key=lambda m: (m["kind"], m["type"]))
 
@@ -201,6 +238,10 @@ def flatten_tables(stbl, ltbl):
     for k in set(lby) | set(sby):
         a, b = sby.get(k), lby.get(k)
         fs, fl = flatten_pair(a["opts"] if a else [], b["opts"] if b else [])
+        if k[0] == "section":
+            # names only: value constraints of these sections live in decode hooks, not in tags
+            for o in fs + fl:
+                o["required"], o["enum"], o["range"], o["cls"] = "no", None, None, None
         if a:
             a["opts"] = sorted(fs, key=lambda o: o["name"])
         if b:
@@ -302,8 +343,10 @@ def probes(stbl, ltbl):
         for m in tbl:
             by.setdefault((m["kind"], m["type"]), {})[side] = m
     out = []
-    kinds = sorted({k for k, _ in by})
+    kinds = sorted({k for k, _ in by if k != "section"})
     for (kind, ty), sides in sorted(by.items()):
+        if kind == "section":
+            continue   # static rows only; the meta stream exercises these sections through NewConfiguration
         known = (kind, ty) in BASE
         base = BASE.get((kind, ty))
         has_cfg = any(m["has_config"] for m in sides.values())
@@ -315,6 +358,9 @@ def probes(stbl, ltbl):
         add("control", [], base, known)
         if base is not None or not known:
             add("no-config", [], None, True)
+        # an `if` on the definition itself (the Mechanism struct has the key, the documentation shows it)
+        out.append({"kind": kind, "type": ty, "opts": [], "missing": [], "config": base, "cond": "true == true",
+                    "controlled": False, "what": "if-condition"})
         names = {}
         for side, m in sides.items():
             for o in m["opts"]:
@@ -408,7 +454,7 @@ def main():
                      "(** the tables agree row by row except on the recorded disagreements (C20-F1) of the groups not repaired yet *)\n"
                      "Example tables_agree : tables_ok fixed_F1a fixed_F1b schema_tbl loader_tbl = true.\nProof. vm_compute. reflexivity. Qed.\n\n"
                      "(** ... and, the syntax of duration values (C20-F6) apart, without any wildcard or excused row *)\n"
-                     "Example tables_strict : strict_ok (erase_classes schema_tbl) (erase_classes loader_tbl) = true.\n"
+                     "Example tables_strict : strict_ok (erase_classes (mech_only schema_tbl)) (erase_classes (mech_only loader_tbl)) = true.\n"
                      "Proof. vm_compute. reflexivity. Qed.\n")
     with open(out_probes, "w") as f:
         json.dump({"probes": probes(stbl, ltbl), "schema": stbl, "loader": ltbl}, f, indent=1)
